@@ -31,7 +31,7 @@ FoldBin(e) ==
   ELSE IF ~IsLit(e.l) /\ (e.r.k = "int" \/ (FoldAnyRight /\ IsLit(e.r))) THEN [k |-> "foldr", op |-> e.op, l |-> e.l, c |-> e.r]     \* Partial_Fold
   ELSE e
 
-RECURSIVE OptE(_), OptS(_), OptSeq(_, _), OptArgs(_, _), OptCases(_, _), OptEis(_, _), OptMethods(_, _), OptPairs(_, _)
+RECURSIVE OptE(_), OptS(_), OptSeq(_, _), OptArgs(_, _), OptCases(_, _), OptEis(_, _), OptMethods(_, _), OptPairs(_, _), OptClauses(_, _)
 OptArgs(as, i) == IF i > Len(as) THEN <<>> ELSE <<OptE(as[i])>> \o OptArgs(as, i + 1)
 OptPairs(ps, i) == IF i > Len(ps) THEN <<>> ELSE << <<ps[i][1], OptE(ps[i][2])>> >> \o OptPairs(ps, i + 1)
 \* Dead_Code on a statement list (a Block): constants (and ids) in non-last position disappear
@@ -45,6 +45,7 @@ FunBody(b) == LET o == OptBody(b) IN
               IF Len(o) > 0 /\ o[Len(o)].k = "ret" THEN [o EXCEPT ![Len(o)] = [k |-> "expr", e |-> o[Len(o)].e]] ELSE o
 OptCases(cs, i) == IF i > Len(cs) THEN <<>> ELSE <<[cs[i] EXCEPT !.v = OptE(cs[i].v), !.b = OptBody(cs[i].b)]>> \o OptCases(cs, i + 1)
 OptEis(eis, i) == IF i > Len(eis) THEN <<>> ELSE <<[c |-> OptE(eis[i].c), b |-> OptBody(eis[i].b)]>> \o OptEis(eis, i + 1)
+OptClauses(cl, i) == IF i > Len(cl) THEN <<>> ELSE <<[cl[i] EXCEPT !.h = OptBody(cl[i].h)]>> \o OptClauses(cl, i + 1)
 OptMethods(ms, i) == IF i > Len(ms) THEN <<>> ELSE <<[ms[i] EXCEPT !.b = FunBody(ms[i].b)]>> \o OptMethods(ms, i + 1)
 
 OptE(e) ==
@@ -78,15 +79,18 @@ OptS(s) ==
     [] s.k = "rfor" -> [s EXCEPT !.e = OptE(s.e), !.b = OptBody(s.b)]
     [] s.k = "switch" -> [s EXCEPT !.e = OptE(s.e), !.cases = OptCases(s.cases, 1)]
     [] s.k \in {"break", "continue"} -> s
+    [] s.k = "throw" -> [s EXCEPT !.e = OptE(s.e)]
+    [] s.k = "try" -> [s EXCEPT !.b = OptBody(s.b), !.cl = OptClauses(s.cl, 1), !.fin = OptBody(s.fin)]
     [] s.k = "def" -> [s EXCEPT !.guard = OptE(s.guard), !.b = FunBody(s.b)]
     [] s.k = "class" -> [s EXCEPT !.ctor.b = FunBody(s.ctor.b), !.methods = OptMethods(s.methods, 1)]
 
 \* the top level of a file is not a Block: Dead_Code does not apply there
 Opt(prog) == OptSeq(prog, 1)
 
-CoreProgs == ndJsonDeserialize(IOEnv.IN)
+CoreProgs(x) == ndJsonDeserialize(IOEnv.IN)
 View(r) == [out |-> r.out, oc |-> r.oc, v |-> r.v]
-ExportOpt == ndJsonSerialize(IOEnv.OUT, [i \in 1..Len(CoreProgs) |->
-                LET p == CoreProgs[i].prog  o == Opt(p) IN
-                [id |-> CoreProgs[i].id, plain |-> View(Run(p)), optimized |-> View(Run(o)), changed |-> (o # p)]])
+ExportOpt(x) == LET ps == CoreProgs(x) IN
+                ndJsonSerialize(IOEnv.OUT, [i \in 1..Len(ps) |->
+                LET p == ps[i].prog  o == Opt(p) IN
+                [id |-> ps[i].id, plain |-> View(Run(p)), optimized |-> View(Run(o)), changed |-> (o # p)]])
 =============================================================================
